@@ -1,0 +1,7 @@
+//go:build !verif
+// +build !verif
+
+package ucon
+
+// verifTrace is the empty twin of the tracing hook in verif_trace.go (build tag verif).
+func verifTrace(v *Voter, ev string, args ...interface{}) {}
